@@ -107,7 +107,8 @@ def h_default_alignment(num_pos_args: int, n_defaults: int, index: int) -> bool:
 MAXP = tier(2, 3)          # max positional-only, positional
 MAXK = 2                   # max keyword-only
 FULL = tier(False, True)
-ANN = ["", ": int", ": 'List[int]'", ": \"Foo\"", ": None", ": 'None'", ": List[None]"]
+ANN = ["", ": int", ": 'List[int]'", ": \"Foo\"", ": None", ": 'None'", ": List[None]", ": List['Foo']", ": Annotated['Foo', 'meta']", ": Literal['Foo']"]
+NANN = len(ANN) - 1
 DEFAULTS = ["100", "True", "1.0", "None", "'s'", "0.0", "False", "-1", "1", "0", "b'1'", "''", "2*(7//2)", "1+(8-3)", "(1, 2)", "[1, {'a': ()}]", "x.y[0](z)", "10-(4-3)"]
 RET = ["", " -> None", " -> int", " -> 'Foo'", " -> \"None\""]
 
@@ -122,9 +123,9 @@ def mk_source(npo, na, nd, va, nk, kmask, kw, annsel, ret, dname):
         i[0] += 1
         a = ""
         if annsel == 1:
-            a = ANN[1 + (k + shift) % 6]
+            a = ANN[1 + (k + shift) % NANN]
         elif annsel == 2 and k % 2 == 0:
-            a = ANN[1 + (k // 2 + shift) % 6]
+            a = ANN[1 + (k // 2 + shift) % NANN]
         return n + a
 
     allpos = [ann(next(names)) for _ in range(npo + na)]
@@ -157,14 +158,34 @@ def layout(a):
             [None if d is None else ast.dump(d) for d in a.kw_defaults], a.kwarg and one(a.kwarg), [ast.dump(d) for d in a.defaults])
 
 
+def _unstring(node):
+    """forward references written as strings are shown unquoted, at any depth - except the arguments of Literal[...] (values,
+    not types) and the metadata of Annotated[...] (only its first argument is a type)"""
+    if isinstance(node, ast.Constant) and isinstance(node.value, str):
+        return _unstring(ast.parse(node.value, mode="eval").body)
+    if isinstance(node, ast.Subscript):
+        head = node.value.id if isinstance(node.value, ast.Name) else getattr(node.value, "attr", None)
+        if head == "Literal":
+            return node
+        if head == "Annotated" and isinstance(node.slice, ast.Tuple) and node.slice.elts:
+            node.slice.elts[0] = _unstring(node.slice.elts[0])
+            return node
+        node.slice = _unstring(node.slice)
+        return node
+    if isinstance(node, ast.Tuple):
+        node.elts = [_unstring(e) for e in node.elts]
+        return node
+    return node
+
+
 def unquote_annotations(fdef):
     """what the documentation is expected to show: string annotations unquoted, `-> None` omitted"""
     for arg in ast.walk(fdef.args):
-        if isinstance(arg, ast.arg) and isinstance(arg.annotation, ast.Constant) and isinstance(arg.annotation.value, str):
-            arg.annotation = ast.parse(arg.annotation.value, mode="eval").body
+        if isinstance(arg, ast.arg) and arg.annotation is not None:
+            arg.annotation = _unstring(arg.annotation)
     r = fdef.returns
-    if isinstance(r, ast.Constant) and isinstance(r.value, str):
-        r = ast.parse(r.value, mode="eval").body
+    if r is not None:
+        r = _unstring(r)
     if isinstance(r, ast.Constant) and r.value is None:
         r = None
     fdef.returns = r
@@ -172,7 +193,7 @@ def unquote_annotations(fdef):
 
 
 def check_signature(sigtext, overload):
-    header = "from typing import List, overload\nDEFAULT = 7\nclass Foo: pass\n"
+    header = "from typing import List, overload, Annotated, Literal\nDEFAULT = 7\nclass Foo: pass\n"
     if overload:
         # two overloads with their own signatures, then the implementation
         src = header + "@overload\ndef f%s: ...\n@overload\ndef f(zz: int, /) -> int: ...\ndef f(*args, **kwargs): pass\n" % sigtext
@@ -229,7 +250,7 @@ def _parts_sig():
     parts=_parts_sig, timeout=(240, 2400), cls="E", tracing="concrete-after-choice", twin="first",
     code=["pydoctor.astbuilder.ModuleVistor._handleFunctionDef", "._annotations_from_function", "pydoctor.astutils.unstring_annotation",
           "pydoctor.astbuilder._ValueFormatter/_AnnotationValueFormatter", "pydoctor.templatewriter.pages.format_signature", "inspect.Signature.__str__"],
-    bounds={"quick": "<=2 positional-only, <=2 positional, every count of defaults, *args or not, <=2 keyword-only with every default mask, **kwargs or not, 3 annotation placements (none / all / alternate; forms: name, quoted subscript, double-quoted name, None, quoted None, subscript with None), 5 return forms, name or constant defaults (chosen by the layout), plain function, and overload set with all parameters annotated",
+    bounds={"quick": "<=2 positional-only, <=2 positional, every count of defaults, *args or not, <=2 keyword-only with every default mask, **kwargs or not, 3 annotation placements (none / all / alternate; forms: name, quoted subscript, double-quoted name, None, quoted None, subscript with None, quoted name inside a subscript, Annotated with a quoted type and string metadata, Literal with a string), 5 return forms, name or constant defaults (chosen by the layout), plain function, and overload set with all parameters annotated",
             "thorough": "<=3 positional-only and <=3 positional, full product incl. name/constant defaults and overload sets for every annotation placement"},
     outside="default/annotation expressions beyond constants, names and one subscript (C15); signatures from introspection of C modules",
 )
